@@ -305,7 +305,7 @@ pub fn run(e: &'static Engine) {
         }));
     }
     e.par(jobs);
-    let total: u32 = e.tier.pick(9600, 240000);
+    let total: u32 = e.tier.pick(19200, 320000);
     let shards = e.tier.pick(32u32, 96);
     let mut jobs: Vec<Job> = Vec::new();
     for _ in 0..shards {
